@@ -282,11 +282,15 @@ trait Elem: Mon + Real + MulAdd<Self, Self, Output = Self> {
 impl Elem for Q {
     const TY: &'static str = "Q";
     fn entry(rng: &mut Rng) -> Q {
-        match rng.below(10) {
+        match rng.below(12) {
             0 => Q::ZERO,
             1 => Q::ONE,
             2 => Q::int(-1),
             3 | 4 => Q::int(rng.range_i64(-6, 6)),
+            // parameters of extreme magnitude: a translation / scale / shear far below the element
+            // type's epsilon (squared length below epsilon squared), or large
+            10 => Q::frac(rng.nonzero_i64(5), 1i64 << *rng.pick(&[27u32, 30, 54])),
+            11 => Q::int(rng.nonzero_i64(3) * (1i64 << *rng.pick(&[12u32, 20]))),
             _ => Q::frac(rng.range_i64(-6, 6), rng.range_i64(1, 3)),
         }
     }
